@@ -514,6 +514,18 @@ type ImmExp struct {
 }
 
 func (imm *ImmExp) expressionNode() {}
+// macroEvalEnv は、一番外側の EQU 名の展開が続いている間だけ、展開済みの EQU 名の結果を覚えておく Env です。
+// その間に EQU の定義もロケーションカウンタも変わらないので、結果は再利用できます。
+type macroEvalEnv struct {
+	Env
+	results map[string]macroEvalResult
+}
+
+type macroEvalResult struct {
+	exp     Exp
+	reduced bool
+}
+
 func (imm *ImmExp) Eval(env Env) (Exp, bool) {
 	switch f := imm.Factor.(type) {
 	case *NumberFactor:
@@ -552,9 +564,19 @@ func (imm *ImmExp) Eval(env Env) (Exp, bool) {
 		// '$' でない場合は、マクロをチェックします
 		macroExp, ok := env.LookupMacro(identValue)
 		if ok {
+			// 同じ EQU 名が1つの式の展開の中で何度も現れる場合 (A1 EQU A0+A0 / A2 EQU A1+A1 / ...) に
+			// 毎回展開し直すと 2^n 回の評価になるので、一番外側の展開の間だけ結果を覚えておきます。
+			cenv, nested := env.(*macroEvalEnv)
+			if !nested {
+				cenv = &macroEvalEnv{Env: env, results: make(map[string]macroEvalResult)}
+			}
+			if r, hit := cenv.results[identValue]; hit {
+				return r.exp, r.reduced
+			}
 			// マクロ定義を再帰的に評価します
 			// マクロ自体が評価されることを確認します
-			evalMacroExp, reduced := macroExp.Eval(env)
+			evalMacroExp, reduced := macroExp.Eval(cenv)
+			cenv.results[identValue] = macroEvalResult{exp: evalMacroExp, reduced: reduced}
 			return evalMacroExp, reduced // 評価されたマクロ式を返します
 		}
 		// マクロでも '$' でもない場合は、未解決の識別子 (ラベルなど) です
